@@ -1,14 +1,14 @@
 use crate::{
-    computed::{ArcMemo, Memo},
+    computed::{ArcMemo, Memo, ScopedFuture},
     diagnostics::is_suppressing_resource_load,
-    owner::{ArcStoredValue, ArenaItem},
+    owner::{ArcStoredValue, ArenaItem, Owner},
     send_wrapper_ext::SendOption,
     signal::{ArcMappedSignal, ArcRwSignal, MappedSignal, RwSignal},
     traits::{DefinedAt, Dispose, Get, GetUntracked, GetValue, Update, Write},
     unwrap_signal,
 };
 use any_spawner::Executor;
-use futures::{channel::oneshot, select_biased, FutureExt};
+use futures::{channel::oneshot, future::Either, select_biased, FutureExt};
 use send_wrapper::SendWrapper;
 use std::{
     future::Future,
@@ -223,6 +223,23 @@ where
     }
 }
 
+/// Makes the action's `Future` run under the [`Owner`] that is current at the time of the
+/// dispatch every time it is polled, the way resources do for their fetchers. Without this, the
+/// code after the first `.await` in the action runs under whichever owner happens to be set on
+/// the thread that polls the spawned task (e.g., the owner of another server request), so that
+/// `use_context` and friends read the wrong reactive scope. The `Future` does not track
+/// reactive reads.
+fn scoped<Fut: Future>(fut: Fut) -> impl Future<Output = Fut::Output> {
+    match Owner::current() {
+        Some(owner) => Either::Left(ScopedFuture {
+            owner,
+            observer: None,
+            fut,
+        }),
+        None => Either::Right(fut),
+    }
+}
+
 /// A handle that allows aborting an in-flight action. It is returned from [`Action::dispatch`] or
 /// [`ArcAction::dispatch`].
 #[derive(Debug)]
@@ -251,7 +268,7 @@ where
     pub fn dispatch(&self, input: I) -> ActionAbortHandle {
         let (abort_tx, mut abort_rx) = oneshot::channel();
         if !is_suppressing_resource_load() {
-            let mut fut = (self.action_fn)(&input).fuse();
+            let mut fut = scoped((self.action_fn)(&input)).fuse();
 
             // Update the state before loading
             self.in_flight.update(|n| *n += 1);
@@ -306,7 +323,7 @@ where
     pub fn dispatch_local(&self, input: I) -> ActionAbortHandle {
         let (abort_tx, mut abort_rx) = oneshot::channel();
         if !is_suppressing_resource_load() {
-            let mut fut = (self.action_fn)(&input).fuse();
+            let mut fut = scoped((self.action_fn)(&input)).fuse();
 
             // Update the state before loading
             self.in_flight.update(|n| *n += 1);
